@@ -129,8 +129,8 @@ _ADD = {
  "C14": " Name-reuse stories with intermediate quiet points and a 40-call delay of a batch's first event are included.",
  "C15": " The state lock must also be owned at every provider call made inside one entry synchronisation (atomicity of the step).",
  "C17": " A negative rating must survive the completion of a related entry.",
- "C18": " stop() calls placed between start() returning and the service thread entering run() are explored sequentially.",
- "C19": " Renames onto the same path or an ancestor and deletes of the root are included.",
+ "C18": " stop() calls placed between start() returning and the service thread entering run() are explored sequentially, and stop_all() over services in any prior state (never started, not yet entered, ended by until(), paused, finally stopped).",
+ "C19": " Renames onto the same path or an ancestor and deletes of the root are included; a second family starts from a populated three-level tree.",
  "C20": " Focused families cover un-request by id, nested remote files, un-request of a predicate match followed by a remote edit, un-request while the upload fails, and ghost entries in the merged listing.",
 }
 for _k, _v in _ADD.items():
